@@ -126,6 +126,46 @@ Definition inv_report (s : st) : list bool :=
    inv_undeclared_b s; inv_fhash_b s; inv_step_b s; inv_running_nohash_b s; inv_succeeded_b s;
    inv_nocreator_b s].
 
+(* The one protocol fact inv_b depends on: hold() is only ever requested by a step whose job is in
+   flight (DirectorHandler.hold resolves the job through Scheduler.get_job_step), i.e. a RUNNING
+   step.  Step.hold itself does not check the state. *)
+Definition protocol_hold_b (s : st) (o : op) : bool :=
+  match o with
+  | OpHold l => match sstate_of l s with Some SRunning | None => true | Some _ => false end
+  | _ => true
+  end.
+Fixpoint protocol_run_b (s : st) (ops : list op) : bool :=
+  match ops with
+  | [] => true
+  | o :: ops' => protocol_hold_b s o && protocol_run_b (apply_op s o) ops'
+  end.
+
+(* Requests issued through the director by a step that exists: the creator of a declaration or of
+   a new step is the root (boot) or a step node; the amended / holding / releasing step exists;
+   argument lists are duplicate free (the code makes them sorted(set(...))); a step does not
+   define a step with its own label (see C09_self_definition_internal_refuted). *)
+Definition requester_b (c : key) (s : st) : bool :=
+  is_some (find_node c s) && (key_eqb c root_key || kind_eqb (fst c) KStep).
+Definition request_ok (s : st) (o : op) : bool :=
+  match o with
+  | OpDeclareStatic c paths => requester_b c s && nodup_by str_eqb paths
+  | OpDefineStep c l inp env out vol nd =>
+    requester_b c s && negb (key_eqb c (KStep, l)) && nodup_by str_eqb out && nodup_by str_eqb vol
+  | OpAmendStep l inp env out vol =>
+    is_some (find_node (KStep, l) s) && nodup_by str_eqb out && nodup_by str_eqb vol
+  | OpHold l => is_some (find_step l s)
+  | OpRelease l => is_some (find_step l s)
+  | _ => false
+  end.
+(* the same without the self-definition clause *)
+Definition request_ok_weak (s : st) (o : op) : bool :=
+  match o with
+  | OpDefineStep c l inp env out vol nd =>
+    requester_b c s && nodup_by str_eqb out && nodup_by str_eqb vol
+  | _ => request_ok s o
+  end.
+Definition is_internal {A} (r : res A) : bool := match r with Internal _ => true | _ => false end.
+
 (* every prefix of a run *)
 Fixpoint all_prefixes_ok (p : st -> bool) (s : st) (ops : list op) : bool :=
   p s && match ops with [] => true | o :: ops' => all_prefixes_ok p (apply_op s o) ops' end.
